@@ -222,6 +222,10 @@ func runC02(c *Ctx) {
 			if ok && !bytes.Equal(p.Rem, tail) {
 				ok, why = false, "did not consume exactly the encoding"
 			}
+			// and what the library WRITES for this value is the specification's encoding again
+			if ok && !bytes.Equal(p.Bytes, id.Encode()) {
+				ok, why = false, "the value serialises to something other than the specification's encoding"
+			}
 		}
 		check("ReadKeysAndCert", ok, in, fmt.Sprintf("sig %d crypto %d null=%v: %s", id.SigType, id.Crypto, id.NullCert, why))
 	}
